@@ -9,18 +9,21 @@
 EXTENDS Naturals, Sequences, FiniteSets, TLC, Json, IOUtils
 CONSTANTS Export
 
-Protos == {"raw", "json", "pb", "thriftbin"}
-Codecs == {"j", "x", "f", "s", "p"}          \* json, xml, form, plain, protobuf
+Protos == {"raw", "json", "pb", "thriftbin", "thriftstruct"}
+Codecs == {"j", "x", "f", "s", "p", "t"}     \* json, xml, form, plain, protobuf, thrift
 Pipes  == {"", "g", "m", "gm", "mg"}         \* gzip / md5 filters, outermost first
-\* the JSON protocol carries the body as a JSON string: text codecs only
-Capable(p, c) == p # "json" \/ c # "p"
+\* the JSON protocol carries the body as a JSON string: text codecs only;
+\* the thrift struct protocol carries a thrift struct in place: thrift codec only, no filter pipe
+Capable(p, c) == /\ (p = "json" => c \notin {"p", "t"})
+                 /\ (p = "thriftstruct" => c = "t")
+PipeOK(p, pp) == p = "thriftstruct" => pp = ""
 Profiles == { [sessions |-> 1, gor |-> 1,  size |-> 0,     hold |-> 0],
               [sessions |-> 2, gor |-> 4,  size |-> 255,   hold |-> 3],
               [sessions |-> 1, gor |-> 16, size |-> 4096,  hold |-> 3],
               [sessions |-> 3, gor |-> 4,  size |-> 70000, hold |-> 0],
               [sessions |-> 2, gor |-> 4,  size |-> 256,   hold |-> 3],
               [sessions |-> 1, gor |-> 4,  size |-> 1,     hold |-> 3] }
-Cells == {c \in [proto : Protos, codec : Codecs, pipe : Pipes, prof : Profiles] : Capable(c.proto, c.codec)}
+Cells == {c \in [proto : Protos, codec : Codecs, pipe : Pipes, prof : Profiles] : Capable(c.proto, c.codec) /\ PipeOK(c.proto, c.pipe)}
 
 VARIABLES cell, done
 vars == <<cell, done>>
@@ -28,7 +31,7 @@ Init == cell \in Cells /\ done = FALSE
 Run == ~done /\ done' = TRUE /\ UNCHANGED cell
 Spec == Init /\ [][Run]_vars
 \* every cell respects the capability matrix
-CapOK == Capable(cell.proto, cell.codec)
+CapOK == Capable(cell.proto, cell.codec) /\ PipeOK(cell.proto, cell.pipe)
 Emit == Export = "" \/
         Serialize(ToJson([proto |-> cell.proto, codec |-> cell.codec, pipe |-> cell.pipe, sessions |-> cell.prof.sessions,
                           gor |-> cell.prof.gor, size |-> cell.prof.size, hold |-> cell.prof.hold]) \o "\n", Export,
